@@ -37,9 +37,24 @@ def bounds(tier):
             'spellings': '4 query kinds x 3 projection forms', 'metrics': ['L2', 'L1']}
 
 
+# the same attribute set measured twice under different spellings of its order (within one model clique)
+EXTRA3 = [
+    (('A', 'B'), ('B', 'A')),
+    (('B', 'A'), ('A', 'B'), ('B', 'C')),
+    (('C', 'A'), ('A', 'C')),
+    (('A', 'B', 'C'), ('C', 'A', 'B'), ('B', 'A')),
+    (('A', 'B'), ('A', 'B')),
+    (('B',), ('A', 'B'), ('B', 'C')),
+]
+
+
+def structs3():
+    return M.structures(M.MENU3, 3) + EXTRA3
+
+
 def jobs(tier, seed):
     out = []
-    s3 = M.structures(M.MENU3, 3)
+    s3 = structs3()
     for i in range(0, len(s3), 4):
         out.append({'dom': 3, 'idx': list(range(i, min(i + 4, len(s3)))), 'seed': seed, 'tier': tier})
     s4 = M.structures(M.MENU4, 4 if tier == 'quick' else 5)
@@ -95,7 +110,7 @@ def check_structure(acc, domk, si, seed, tier):
     from mbi import Factor, CliqueVector
     M.deterministic_eigsh()
     attrs, sizes, menu = (M.ATTRS3, M.SIZES3, M.MENU3) if domk == 3 else (M.ATTRS4, SIZES4, M.MENU4)
-    struct = M.structures(menu, 3 if domk == 3 else (4 if tier == 'quick' else 5))[si]
+    struct = structs3()[si] if domk == 3 else M.structures(menu, 4 if tier == 'quick' else 5)[si]
     prob = M.Problem(attrs, sizes, struct, si, 'pos', seed)
     T = prob.T
     fails = []
